@@ -61,6 +61,16 @@ EVENTS = ['read_x', 'read_y', 'read_r', 'read_t', 'crop', ['pad', 1], ['pad', [1
           'remove_piston', 'remove_tiptilt', 'remove_power', 'recenter', ['latcal', 2.0], 'strip_latcal',
           ['filter', 0.5]]
 EXTRA_THOROUGH = [['pad0', 1]]      # pad(0.0, samples=1): a *valid* border
+# second-object dimension (unit ``forks``): ``fork`` takes other = ifg.copy() and goes on with the original,
+# ``fork_swap`` goes on with the copy and keeps the original as the frozen one; once per history, at any position
+FORKS = ['fork', 'fork_swap']
+# before the fork: the events that decide what the caches look like when the copy is taken (unpopulated / x,y only /
+# all four / views into larger arrays after crop / rebound by pad, latcal) and whether a later crop is off-centre
+PRE_FORK = ['read_x', 'read_r', 'crop', ['mask', 'half'], ['pad', 1], 'recenter', ['latcal', 2.0]]
+# after the fork: every mutator of the alphabet (one pad variant) plus one read
+POST_FORK = ['crop', ['pad', 1], ['mask', 'circle'], ['mask', 'half'], ['fill', 0.0], ['spike_clip', 1.5],
+             'remove_piston', 'remove_tiptilt', 'remove_power', 'recenter', ['latcal', 2.0], 'strip_latcal',
+             ['filter', 0.5], 'read_r']
 
 
 def ev_name(ev):
@@ -125,11 +135,14 @@ def _make_data(init, seed):
 
 
 class St:
-    __slots__ = ('ifg', 'dead')
+    __slots__ = ('ifg', 'dead', 'other', 'mode', 'snap')
 
     def __init__(self, ifg):
-        self.ifg = ifg
+        self.ifg = ifg          # the primary object: every event is applied to it
         self.dead = False       # the last event raised: nothing more is defined for this object
+        self.other = None       # second object after a fork: never touched again, judged in every state
+        self.mode = None        # None | 'fork' (other = the copy) | 'fork_swap' (other = the original, primary = the copy)
+        self.snap = None        # what ``other`` reported at the moment of the fork
 
 
 def fresh(init, seed):
@@ -229,7 +242,21 @@ def apply(st, ev, R):
     name, arg = ev_name(ev), ev_arg(ev)
     sig = f'{name}:exception'
     if name in READS:
-        out = R.call(getattr, ifg, name[-1], sig=sig)
+        # hygiene off: recenter is documented to adjust x, y (in place), so "an array returned earlier changed" is no finding here
+        out = R.call(getattr, ifg, name[-1], sig=sig, hygiene=False)
+    elif name in FORKS:
+        out = R.call(ifg.copy, sig=sig)
+        if out is not FAILED:
+            if not isinstance(out, Interferogram) or out is ifg:
+                R.violation('fork:copy-type', f'copy() returned {type(out).__name__}{" (the object itself)" if out is ifg else ""}')
+                out = FAILED
+            else:
+                st.mode = name
+                if name == 'fork':
+                    st.other = out
+                else:
+                    st.other, st.ifg = ifg, out
+                st.snap = snapshot(st.other)
     elif name == 'crop':
         out = R.call(ifg.crop, sig=sig)
     elif name == 'pad':
@@ -259,8 +286,9 @@ def _alphabet(tier):
     return EVENTS + (EXTRA_THOROUGH if tier == 'thorough' else [])
 
 
-def make_events(tier):
-    alphabet = _alphabet(tier)
+def make_events(tier, pre=None, post=None):
+    """pre / post: alphabets before / after a fork (fork events are offered iff ``post`` is given)."""
+    alphabet = _alphabet(tier) if pre is None else pre
 
     def events(init, history, st):
         if st.dead:
@@ -268,9 +296,11 @@ def make_events(tier):
         ifg = st.ifg
         if any(not ok for _, ok, _ in coord_verdicts(ifg)):
             return []                       # error state: reported where it arose, not expanded
+        if st.other is not None and any(not ok for _, ok, _ in other_verdicts(st)):
+            return []
         data = ifg.data
         out = []
-        for ev in alphabet:
+        for ev in (alphabet + FORKS if post is not None else alphabet) if st.mode is None else post:
             if ev_name(ev) == 'filter':
                 # an FFT of NaN-bearing data has no defined validity semantics; frequency needs a calibration
                 if np.isnan(data).any() or min(data.shape) < 4 or not ifg.dx > 0:
@@ -306,29 +336,73 @@ def canon(st):
     * which of _x/_y/_r/_t are populated, their shapes AND their values: crop / recenter / strip_latcal branch on
       populated-ness; remove_tiptilt fits span{x, y} WITHOUT a constant, so the (path dependent) origin of a cached,
       sliced grid changes its result; filter reads r; the invariants compare all four.
+    * after a fork: which of the two objects is the frozen one (fork / fork_swap) and the same fields of the frozen
+      object -- the oracle reads them in every later state, and an implementation that shares arrays between the two
+      can make later transitions of the primary depend on them.
     Not included: wavelength, intensity, meta, interpf_* -- constants of the exploration.
     """
     if st.dead:
         return 'dead'
-    ifg = st.ifg
     h = hashlib.sha1()
-    _dig(h, ifg.data)
-    h.update(repr((float(ifg.dx) if _isnum(ifg.dx) else repr(ifg.dx), bool(ifg._latcaled))).encode())
-    for k in ('_x', '_y', '_r', '_t'):
-        _dig(h, getattr(ifg, k, None))
+    for obj in (st.ifg, st.other):
+        if obj is None:
+            h.update(b'no-fork')
+            continue
+        _dig(h, obj.data)
+        h.update(repr((float(obj.dx) if _isnum(obj.dx) else repr(obj.dx), bool(obj._latcaled))).encode())
+        for k in ('_x', '_y', '_r', '_t'):
+            _dig(h, getattr(obj, k, None))
+    h.update(repr(st.mode).encode())
     return h.hexdigest()
 
 
 # ---------------------------------------------------------------------------------------------
 # reference model of one transition
 
-def summary(st):
-    if st.dead:
-        return None
-    ifg = st.ifg
+def snapshot(ifg):
     vis = visible(ifg)
     return {'data': np.array(ifg.data, dtype=float, copy=True), 'dx': ifg.dx,
             'vis': {k: (np.array(a, copy=True) if isinstance(a, np.ndarray) else a) for k, a in vis.items()}}
+
+
+def summary(st):
+    return None if st.dead else snapshot(st.ifg)
+
+
+def differences(obj, snap):
+    """[(what, ok, msg)]: is everything ``obj`` reports bit-for-bit what the snapshot recorded?"""
+    out = []
+    d = obj.data
+    ok = isinstance(d, np.ndarray) and d.shape == snap['data'].shape and np.array_equal(d, snap['data'], equal_nan=True)
+    out.append(('data', bool(ok), 'data differ'))
+    out.append(('dx', _isnum(obj.dx) and _isnum(snap['dx']) and float(obj.dx) == float(snap['dx']), f'dx {obj.dx!r} != {snap["dx"]!r}'))
+    vis = visible(obj)
+    for k in 'xyrt':
+        a, b = vis[k], snap['vis'][k]
+        if isinstance(a, _Err) or isinstance(b, _Err):
+            out.append((k, isinstance(a, _Err) and isinstance(b, _Err), f'reading .{k} raised {getattr(a, "msg", "")}'))
+            continue
+        ok = isinstance(a, np.ndarray) and isinstance(b, np.ndarray) and a.shape == b.shape and np.array_equal(a, b, equal_nan=True)
+        msg = ''
+        if not ok:
+            try:
+                msg = f'.{k} differs: shape {np.shape(a)} vs {np.shape(b)}' if np.shape(a) != np.shape(b) else \
+                    f'.{k} differs at {int(np.sum(a != b))} of {a.size} samples, max |change| {float(np.nanmax(np.abs(a - b))):.3e}'
+            except Exception:   # noqa
+                msg = f'.{k} differs'
+        out.append((k, bool(ok), msg))
+    return out
+
+
+def other_verdicts(st):
+    """The frozen object of a forked state: still coherent on its own, and bit-for-bit what it was at the fork."""
+    o = st.other
+    out = [(f'coords:{key}', ok, msg) for key, ok, msg in coord_verdicts(o)]
+    if not any(k.startswith('coords:data') for k, _, _ in out):
+        out += [(f'changed:{what}', ok, f'the {"copy" if st.mode == "fork" else "original"} was changed by an operation on the '
+                                        f'{"original" if st.mode == "fork" else "copy"}: {msg}')
+                for what, ok, msg in differences(o, st.snap)]
+    return out
 
 
 def _scale(v):
@@ -348,6 +422,14 @@ def step_check(before, ev, st, R):
         return
     name, arg = ev_name(ev), ev_arg(ev)
     ifg = st.ifg
+    if name in FORKS:
+        # copy(): both objects report exactly what the one object reported before
+        for tag, obj in (('primary', st.ifg), ('other', st.other)):
+            for what, ok, msg in differences(obj, before):
+                R.expect(ok, f'fork:copy:{what}', f'after copy() the {tag} object of {name}: {msg}')
+        R.nontrivial()
+        R.outcome(name)
+        return
     old = before['data']
     new = ifg.data
     if not isinstance(new, np.ndarray) or new.ndim != 2 or new.dtype.kind != 'f':
@@ -536,15 +618,27 @@ def check(st, init, history, R):
         R.expect(ok, f'coords:{key}:{last}', msg)
     if any(not ok for _, ok, _ in verdicts):
         R.outcome('incoherent-coordinates')
+    if st.other is not None:
+        ov = other_verdicts(st)
+        for key, ok, msg in ov:
+            R.expect(ok, f'fork:{key}:{last}', msg)
+        if any(not ok for _, ok, _ in ov):
+            R.outcome('fork-disturbed')
+        elif last not in FORKS:
+            judge_stats(st.other, R, 'fork:stats')
     if any(k.startswith('data') for k, _, _ in verdicts):
         return
+    R.nontrivial(ifg.data.size > 1)
+    judge_stats(ifg, R, 'stats')
+
+
+def judge_stats(ifg, R, pre):
     data = ifg.data
-    R.nontrivial(data.size > 1)
 
     # statistics: plain numpy on the valid samples only
     v = data[~np.isnan(data)]
-    dp = R.call(lambda: ifg.dropout_percentage, sig='stats:dropout_percentage:exception')
-    R.expect_close(dp, 100.0 * (data.size - v.size) / max(data.size, 1), 1e-12 * 100, 'stats:dropout_percentage', 'dropout_percentage')
+    dp = R.call(lambda: ifg.dropout_percentage, sig=f'{pre}:dropout_percentage:exception', hygiene=False)   # closures: nothing for the hygiene layer to see
+    R.expect_close(dp, 100.0 * (data.size - v.size) / max(data.size, 1), 1e-12 * 100, f'{pre}:dropout_percentage', 'dropout_percentage')
     if v.size == 0:
         R.outcome('no-valid-sample')
         return
@@ -557,14 +651,14 @@ def check(st, init, history, R):
            'Sa': float(np.abs(v - m).sum() / v.size)}
     got = {}
     for k in ('pv', 'rms', 'std', 'Sa'):
-        got[k] = R.call(lambda k=k: getattr(ifg, k), sig=f'stats:{k}:exception')
-        R.expect_close(got[k], ref[k], tol, f'stats:{k}', f'{k} of {v.size} valid / {data.size} samples')
-    gm = R.call(putil.mean, data, sig='stats:mean:exception')
-    R.expect_close(gm, m, tol, 'stats:mean', f'mean of {v.size} valid / {data.size} samples')
+        got[k] = R.call(lambda k=k: getattr(ifg, k), sig=f'{pre}:{k}:exception', hygiene=False)
+        R.expect_close(got[k], ref[k], tol, f'{pre}:{k}', f'{k} of {v.size} valid / {data.size} samples')
+    gm = R.call(putil.mean, data, sig=f'{pre}:mean:exception')
+    R.expect_close(gm, m, tol, f'{pre}:mean', f'mean of {v.size} valid / {data.size} samples')
     if all(isinstance(g, (float, np.floating)) and np.isfinite(g) for g in list(got.values()) + [gm]):
-        R.expect(abs(got['rms'] ** 2 - (got['std'] ** 2 + gm ** 2)) <= 512 * EPS * max(sc * sc, 1e-300), 'stats:rms2=std2+mean2',
+        R.expect(abs(got['rms'] ** 2 - (got['std'] ** 2 + gm ** 2)) <= 512 * EPS * max(sc * sc, 1e-300), f'{pre}:rms2=std2+mean2',
                  f"rms^2 = {got['rms'] ** 2} != std^2 + mean^2 = {got['std'] ** 2 + gm ** 2}")
-        R.expect(got['Sa'] <= got['std'] + tol and got['std'] <= got['pv'] + tol, 'stats:Sa<=std<=PV',
+        R.expect(got['Sa'] <= got['std'] + tol and got['std'] <= got['pv'] + tol, f'{pre}:Sa<=std<=PV',
                  f"Sa={got['Sa']} std={got['std']} PV={got['pv']}")
 
 
@@ -591,5 +685,15 @@ def plan(tier, seed):
     units.append(HistoryUnit('histories_deep', deep, fresh, make_events(tier), apply, check, canon, ddepth,
                              f'the same exploration to depth {ddepth} from four of the initial states (one per NaN pattern, all three shapes, '
                              'calibrated and uncalibrated): ' + ', '.join(f"{d['shape'][0]}x{d['shape'][1]}/{d['nan']}/dx={d['dx']}" for d in deep),
+                             summary=summary, step_check=step_check, reset=rs))
+    fdepth = 4 if tier == 'quick' else 5
+    finits = [i for i in inits if i['dx'] == 0.5]
+    units.append(HistoryUnit('forks', finits, fresh, make_events(tier, PRE_FORK, POST_FORK), apply, check, canon, fdepth,
+                             f'second-object dimension, BFS to depth {fdepth} from the 12 calibrated initial states: histories P* F M* where P = '
+                             f'{[ev_name(e) for e in PRE_FORK]} shapes the caches, F in {{fork: other = ifg.copy(), go on with the original; fork_swap: go on '
+                             'with the copy, the original is the other}} occurs at most once at any position, M = the mutators + read_r are applied '
+                             'to the primary object only; in every state BOTH objects are judged: the primary as in the other units, the other one '
+                             'must stay coherent on its own (shape, spacing, polar consistency, statistics) and bit-for-bit what it reported at '
+                             'the fork (data, dx, x, y, r, t read without populating its caches); the fork state is part of the canonical state',
                              summary=summary, step_check=step_check, reset=rs))
     return units
